@@ -19,12 +19,12 @@ from ..harness import Violation
 LEVEL = "exploration"
 RULE = (
     "2-4 concurrent tasks on one shared Panoptica_Aggregator, each evaluate(subject), make_statistic() or a submission that raises (arrays of different shape, own name), subject names "
-    "drawn from a pool of 3 (one of three name sets, two of them numeric-looking: 001, 1e3, 07, 7.0 ...) so that collisions are frequent, 0-1 subjects recorded sequentially beforehand; tasks run as "
+    "drawn from a pool of 3 (one of five name sets: plain, numeric-looking such as 001 / 1e3 / 07 / 7.0, missing-value tokens such as NA / null / nan / None, names that are prefixes of each other) so that collisions are frequent, 0-1 subjects recorded sequentially beforehand; tasks run as "
     "threads, as forked processes, or as forked processes that each work on their own pickled copy of an aggregator built by a process they were not forked from (long-lived pool workers; the copy is dropped and collected when the task is done). Every lock acquire/release, file open/close, remove and the middle of every row "
     "write is a scheduling point of a cooperative scheduler that runs exactly one task at a time; the interleaving is "
     "the generated schedule (free choice lists of <=200 integers, or priority orders with 0-4 preemptions placed at "
     "arbitrary decision indices), so every run is deterministic and replayable. In addition ALL interleavings of "
-    "two tasks are enumerated depth-first over the scheduler's choice points for nine configurations (same name twice, two "
+    "two tasks are enumerated depth-first over the scheduler's choice points for eleven configurations (same name twice, two "
     "names, evaluate + statistic on an empty and on a non-empty file, resumed file, two statistics; threads, and forks up "
     "to a leaf limit), and, in the thorough tier, all interleavings with at most two preemptions of three and four tasks. "
     "Lock-sharing probe: while the parent holds a module-level lock, a worker started through multiprocessing.Process / "
@@ -50,13 +50,24 @@ INPUTS = [
     ([0, 0, 0, 0, 0, 0, 0, 0], [1, 1, 1, 0, 0, 0, 0, 0]),
     ([2, 2, 0, 1, 1, 1, 1, 0], [2, 2, 2, 1, 1, 0, 0, 0]),
 ]
-NAME_SETS = [["alpha", " beta-2 ", "subject_name", "pre0"], ["001", "002", "1e3", "0"], ["7", "07", "7.0", "1_000"]]
+NAME_SETS = [["alpha", " beta-2 ", "subject_name", "pre0"], ["001", "002", "1e3", "0"], ["7", "07", "7.0", "1_000"],
+             ["NA", "null", "nan", "None"], ["s10", "s1", "s", "s100"]]
 NAMES = list(NAME_SETS[0])  # the set in use; chosen per case by use_names()
 
 
 def use_names(idx):
     NAMES[:] = NAME_SETS[idx or 0]
 CFG = {"input": "UNMATCHED_INSTANCE", "matcher": {"kind": "naive", "metric": "IOU", "thr": 0.5, "m2o": False}, "imetrics": ["DSC", "IOU"], "gmetrics": ["DSC"]}
+CFG_PLAIN = CFG
+CFG_GROUPED = {**CFG, "groups": [{"name": "first", "labels": [1], "kind": "plain"}, {"name": "rest", "labels": [2, 3], "kind": "plain"}]}
+
+
+def use_cfg(grouped):
+    """Evaluator configuration of the aggregator under test: group-less, or two class groups (two blocks of cells per row)."""
+    global CFG
+    CFG = CFG_GROUPED if grouped else CFG_PLAIN
+
+
 BAD_NAME = "broken"
 _EXPECTED = {}
 
@@ -87,7 +98,8 @@ def case_strategy(draw, mode=None):
     pre = draw(st.integers(0, 1))
     # continue_file=False is only meaningful on a fresh file (it skips rebuilding the claims from the output)
     return {"mode": mode or "threads", "tasks": tasks, "pre": pre, "schedule": draw(schedule()),
-            "continue_file": True if pre else draw(st.booleans()), "subject_names": draw(st.sampled_from([0, 0, 1, 2]))}
+            "continue_file": True if pre else draw(st.booleans()), "subject_names": draw(st.sampled_from([0, 0, 1, 2, 3, 4])),
+            "grouped": draw(st.integers(0, 3)) == 0}
 
 
 def searches(tier):
@@ -106,6 +118,7 @@ DFS_CONFIGS = [
     ("same_name_x2_resumed_file", "threads", [E(2), E(2)], 1),
     ("statistic_x2", "threads", [S, S], 1),
     ("raising_submission+evaluate", "threads", [{"op": "evaluate_bad"}, E(0)], 0),
+    ("resubmission_of_recorded_subject+statistic", "threads", [E(3), S], 1),
     ("same_name_x2_forks", "forks", [E(0), E(0)], 0),
     ("evaluate+statistic_forks", "forks", [E(1), S], 1),
     ("same_name_x2_pickled_copies", "forks_pickled", [E(0), E(0)], 0),
@@ -251,7 +264,7 @@ def arrays(k):
 
 def expected_rows(log_times=False):
     """Rows of a sequential run (one aggregator, one subject at a time), as strings."""
-    key = tuple(NAMES) + (bool(log_times),)
+    key = tuple(NAMES) + (bool(log_times), CFG is CFG_GROUPED)
     if key in _EXPECTED:
         return _EXPECTED[key]
     exp = _EXPECTED[key] = {}
@@ -296,6 +309,7 @@ def check(case, stats):
     from panoptica import Panoptica_Aggregator
 
     use_names(case.get("subject_names"))
+    use_cfg(case.get("grouped"))
     with H.quiet():
         exp = expected_rows()
     header = exp["header"]
